@@ -270,11 +270,12 @@ def search(ctx):
         yield {"op": "text", "dt": rc.VISIBLE_STRING, "s": "\x00x"}
         yield {"op": "text", "dt": rc.VISIBLE_STRING, "s": ""}
         yield {"op": "text", "dt": rc.UNICODE_STRING, "s": ""}
-        step = 1 if thorough else 7
-        for cp in range(1, 0x10000, step):
+        for cp in range(1, 0x10000):
             if 0xD800 <= cp <= 0xDFFF:
                 continue
             yield {"op": "text", "dt": rc.UNICODE_STRING, "s": chr(cp)}
+            if thorough or cp % 5 == 0:
+                yield {"op": "text", "dt": rc.UNICODE_STRING, "s": "a" + chr(cp) + "z"}
 
     ctx.enumerate(gen_enum(), "8/16-bit values and byte patterns, boundaries, lengths 0..9, characters")
 
